@@ -15,9 +15,17 @@
   * `finish`      — client.go / stdio_client.go (every request method has the same shape): `isErrorResponse` ⇒ the JSON-RPC error
                     (code, message), otherwise the method's decoder `D`.
 
+  * numbers: EVERY transport first decodes the whole answer into Go values (`json.Unmarshal` into `map[string]interface{}`
+                    on the two Streamable paths and in the legacy SSE client, into `JSONRPCResponse{Result interface{}}` on
+                    stdio) and hands the decoder `json.Marshal` of the decoded result: the same normalisation on all four
+                    paths — `Mcp.Rpc.goDecode`: every number becomes the float64 nearest to it (2^53 + 1 arrives as 2^53,
+                    `1e3` and `12.0` as 1000 and 12), a later duplicate member wins, a number no float64 can hold makes the
+                    whole answer undecodable. `recv*` take the answer as it is ON THE WIRE and start with that step.
+
   The answer is assumed to carry the id of the pending call (id matching is C01's subject).
 -/
 import Mcp.Model.Json
+import Mcp.Model.Rpc
 namespace Mcp.RpcClient
 open Mcp.Str Mcp.Json
 
@@ -27,6 +35,7 @@ inductive Fail
   | noFinalResponse   -- "connection closed but no final response received"
   | timeout           -- the answer was not recognised; the call ends by its timeout / context
   | notAMessage       -- the answer does not decode into an object
+  | undecodable       -- the answer holds a number no float64 can hold: ErrResponseParsing
   deriving DecidableEq, Repr
 
 /-- what `transport.sendRequest` returns -/
@@ -35,7 +44,8 @@ inductive Got
   | envelope (j : Json)   -- the whole error answer
   | failed (f : Fail)
 
-def recvHTTP : Json → Got
+/-- past the decode step -/
+def recvHTTPDecoded : Json → Got
   | .obj o =>
     if hasKey o t!"error" then .envelope (.obj o)
     else match lookup o t!"result" with
@@ -44,7 +54,7 @@ def recvHTTP : Json → Got
   | .null => .failed .missingResult          -- nil map: neither member
   | _ => .failed .notAMessage
 
-def recvPostSSE : Json → Got
+def recvPostSSEDecoded : Json → Got
   | .obj o =>
     if hasKey o t!"error" then .envelope (.obj o)
     else match lookup o t!"result" with
@@ -65,7 +75,7 @@ def isNumber : Json → Bool
   | .dec _ _ => true
   | _ => false
 
-def recvStdio : Json → Got
+def recvStdioDecoded : Json → Got
   | .obj o =>
     if lookupStr? o t!"jsonrpc" = some t!"2.0" ∧ hasKey o t!"id" = true then
       if (match lookup o t!"id" with | some i => isNumber i | none => false) = false then .failed .timeout
@@ -79,6 +89,34 @@ def recvStdio : Json → Got
         | none => .failed .timeout          -- classified as a request of the server
     else .failed .timeout
   | _ => .failed .timeout
+
+/-- the decode step every transport starts with: the answer as Go values, re-read as JSON -/
+def wireDecode (w : Json) : Option Json := Mcp.Rpc.goDecode w
+
+/-- Streamable client, JSON body: an undecodable answer is ErrResponseParsing -/
+def recvHTTP (w : Json) : Got :=
+  match wireDecode w with
+  | some d => recvHTTPDecoded d
+  | none => .failed .undecodable
+
+/-- legacy SSE client, the `message` event of its stream: as the JSON body, but an undecodable event is logged and dropped —
+    the call ends by its timeout -/
+def recvLegacySSE (w : Json) : Got :=
+  match wireDecode w with
+  | some d => recvHTTPDecoded d
+  | none => .failed .timeout
+
+/-- Streamable client, POST answered as an SSE stream: an undecodable event is skipped, the stream ends without a result -/
+def recvPostSSE (w : Json) : Got :=
+  match wireDecode w with
+  | some d => recvPostSSEDecoded d
+  | none => .failed .noFinalResponse
+
+/-- stdio client: an undecodable line is logged and dropped, the call ends by its timeout -/
+def recvStdio (w : Json) : Got :=
+  match wireDecode w with
+  | some d => recvStdioDecoded d
+  | none => .failed .timeout
 
 /-- the value a client API returns -/
 inductive Value (α : Type)
